@@ -394,6 +394,9 @@ Definition check_undoc (uuf bysetpos byeaster cache byweekno : arg) : result uni
 
 Definition SU : wday := WD 6 None.
 
+(* `if not interval: raise DataGenValueError` (the engine never advances with an interval of 0) *)
+Definition check_interval (iv : arg) : result unit := if truthy iv then Ok tt else dge.
+
 Definition special_part (P : parser) (start : dt) (mr md : method) (a : arg) : result (list call) :=
   if truthy a then specials P start mr md a else Ok [].
 
@@ -418,6 +421,7 @@ Definition wire (P : parser) (now : dt) (a : sched_args)
     do byweekno <- ints (dflt ANone (s_byweekno a));
     do until <- norm_until P start (dflt ANone (s_until a));
     do freq <- norm_freq fq p;
+    do _ <- check_interval (dflt (AInt 1) (s_interval a));
     do byweekday <- weekdays (dflt ANone (s_byweekday a));
     let r := mkRR freq start (to_scalar (dflt (AInt 1) (s_interval a))) (Some SU)
                   (to_scalar (dflt ANone (s_count a))) until
